@@ -295,4 +295,33 @@ example : ∃ σ, unifyOC (.var "X") (.atom "a") = some σ ∧ applyS σ (.var "
     ⟨fun _ => .atom "a", by simp [Unifier]⟩
   exact ⟨σ, h, C10_bystander_unbound h (by simp) (by simp)⟩
 
+/-! ### finding C10-2 (head unification in write mode, `occurs_check = true`)
+
+The clause `h3(V1, h([a|V1])).` called as `h3(V, h(V))` unifies `h(V1)` with `h([a|V1])`.
+The pinned implementation answered `V1 = [a|_G0]`. -/
+
+/-- `h(V1)` and `h([a|V1])` have no finite unifier: the call has to fail under
+    `occurs_check = true` (and raise the error under `error`). -/
+theorem C10_2_no_unifier :
+    solve [(.str "h" [.var "V1"], .str "h" [.str "." [.atom "a", .var "V1"]])] [] = .cyclic ∧
+    ¬∃ θ, Unifier θ (.str "h" [.var "V1"]) (.str "h" [.str "." [.atom "a", .var "V1"]]) := by
+  constructor
+  · simp [solve, Term.vars, Term.varsL]
+  · rw [← C10_unifyOC_fails_iff]
+    simp [unifyOC, unify, solve, Term.vars, Term.varsL]
+
+/-- the answer of the pinned implementation, `V1 ↦ [a|G0]`, is not a unifier of the two terms
+    (whatever `G0` stands for): a success must make the terms identical. -/
+theorem C10_2_pinned_answer_not_unifier (θ : String → Term)
+    (h : θ "V1" = .str "." [.atom "a", θ "G0"]) :
+    ¬Unifier θ (.str "h" [.var "V1"]) (.str "h" [.str "." [.atom "a", .var "V1"]]) := by
+  intro hu
+  have hs : (θ "G0").size < (θ "V1").size := by
+    rw [h]; simp [Term.size, Term.sizeL]; omega
+  simp [Unifier, Term.subst, Term.substL] at hu
+  rw [h] at hu
+  simp at hu
+  rw [hu] at hs
+  exact absurd hs (by simp [h])
+
 end Scryer.C10
